@@ -14,6 +14,9 @@ wdoc (python):
          0xC0..0xC2 -> arg = None
 """
 
+import sys
+sys.setrecursionlimit(20000)
+
 WML_LANGS = (1101, 1102, 1103, 1104, 1202)
 WV_LANGS = (2301, 2302)
 GLOBAL_LOW = (0, 1, 2, 3, 4)
